@@ -35,6 +35,7 @@ impl Rec {
 
 pub trait Num: Copy + Debug + Serialize + DeserializeOwned + PartialEq + 'static {
     const NAME: &'static str;
+    const IS_FLOAT: bool = false;
     fn val(rng: &mut Rng, slot: usize) -> Self;
     fn json(self) -> Value;
     /// a value whose JSON text round trip is exact
@@ -42,6 +43,7 @@ pub trait Num: Copy + Debug + Serialize + DeserializeOwned + PartialEq + 'static
 }
 impl Num for f64 {
     const NAME: &'static str = "f64";
+    const IS_FLOAT: bool = true;
     fn val(rng: &mut Rng, slot: usize) -> f64 {
         let specials = [-0.0, f64::MIN_POSITIVE / 8.0, -f64::MIN_POSITIVE / 1024.0, f64::MAX, f64::MIN, f64::EPSILON, 0.1, 1.0 / 3.0, f64::MIN_POSITIVE];
         match rng.below(4) {
@@ -58,6 +60,7 @@ impl Num for f64 {
 }
 impl Num for f32 {
     const NAME: &'static str = "f32";
+    const IS_FLOAT: bool = true;
     fn val(rng: &mut Rng, slot: usize) -> f32 {
         let specials = [-0.0f32, f32::MIN_POSITIVE / 8.0, -f32::MIN_POSITIVE / 64.0, f32::MAX, f32::MIN, f32::EPSILON, 0.1, 1.0 / 3.0];
         match rng.below(4) {
@@ -163,6 +166,22 @@ fn plain_types<S: Num>(rec: &mut Rec, rng: &mut Rng, texty: bool) {
         m_shape(&c, 4)
     );
     both!("Quaternion", Quaternion::new(c[0], c[1], c[2], c[3]), json!({"v": v_shape(&c[1..4]), "s": c[0].json()}));
+}
+
+/// angles, Euler triples and projection descriptions (float-valued concepts)
+fn angle_types<S: Num + cgmath::BaseFloat>(rec: &mut Rec, rng: &mut Rng, texty: bool) {
+    let c: Vec<S> = (0..16).map(|i| if texty { S::texty(i) } else { S::val(rng, i) }).collect();
+    let n = S::NAME;
+    macro_rules! both {
+        ($name:expr, $x:expr, $shape:expr) => {{
+            let x = $x;
+            if texty {
+                text_round_trip(rec, &format!("{}<{}>", $name, n), &x);
+            } else {
+                round_trip(rec, &format!("{}<{}>", $name, n), &x, Some($shape));
+            }
+        }};
+    }
     both!("Rad", Rad(c[0]), c[0].json());
     both!("Deg", Deg(c[1]), c[1].json());
     both!("Euler<Rad>", Euler::new(Rad(c[0]), Rad(c[1]), Rad(c[2])), v_shape(&c[..3]));
@@ -322,6 +341,8 @@ pub fn native(cfg: &RunCfg, extra: &mut Extra) {
         let r = cgv_core::fw::catch(|| {
             plain_types::<f64>(&mut rec, &mut rng, false);
             plain_types::<f32>(&mut rec, &mut rng, false);
+            angle_types::<f64>(&mut rec, &mut rng, false);
+            angle_types::<f32>(&mut rec, &mut rng, false);
             plain_types::<i32>(&mut rec, &mut rng, false);
             plain_types::<u8>(&mut rec, &mut rng, false);
             plain_types::<i64>(&mut rec, &mut rng, false);
@@ -330,6 +351,8 @@ pub fn native(cfg: &RunCfg, extra: &mut Extra) {
             if i < 3 {
                 plain_types::<f64>(&mut rec, &mut rng, true);
                 plain_types::<f32>(&mut rec, &mut rng, true);
+                angle_types::<f64>(&mut rec, &mut rng, true);
+                angle_types::<f32>(&mut rec, &mut rng, true);
                 plain_types::<i32>(&mut rec, &mut rng, true);
             }
             float_only::<f64>(&mut rec, &mut rng);
